@@ -277,3 +277,29 @@ pub mod wide {
    c18_harness!(trrel_union_find_e3_ops2_wide, 5, tr_body::<3, 2>(true));
    c18_harness!(trrel_union_find_e3_ops3_wide, 5, tr_body::<3, 3>(true));
 }
+
+pub mod dbg {
+   use super::*;
+   c18_harness!(uf_ops1, 2, uf_body::<2, 1>());
+   c18_harness!(tr_e2_ops1, 3, tr_body::<2, 1>(false));
+   c18_harness!(tr_e2_ops1_inv, 3, tr_body::<2, 1>(true));
+   c18_harness!(tr_e2_ops2, 3, tr_body::<2, 2>(false));
+   c18_harness!(uf_adds, 2, {
+      let mut uf = UnionFind::<u8>::default();
+      let (x, y) = (any_below(2), any_below(2));
+      uf.add(x);
+      uf.add(y);
+      let a = any_below(2);
+      assert!(uf.find_item(&a).is_some() == (a == x || a == y));
+      std::mem::forget(uf);
+   });
+   c18_harness!(uf_union_add, 2, {
+      let mut uf = UnionFind::<u8>::default();
+      let (x, y) = (any_below(2), any_below(2));
+      uf.union_add(x, y);
+      let (a, b) = (any_below(2), any_below(2));
+      let (fa, fb) = (uf.find_item(&a), uf.find_item(&b));
+      if fa.is_some() && fb.is_some() { assert!(fa == fb); }
+      std::mem::forget(uf);
+   });
+}
